@@ -895,12 +895,25 @@ theorem quantifyWith_totals (S : Nat) (rows : List Row) (groups : List (List Str
 
 /-! ### TMT reporter sums -/
 
+/-- for equal shapes the numpy add is the element-wise one (the broadcast branch coincides with it) -/
+theorem vecAdd_eq_zipWith (a b : List Rat) (h : a.length = b.length) :
+    vecAdd a b = List.zipWith (· + ·) a b := by
+  unfold vecAdd
+  split
+  · rename_i x
+    match a, h with
+    | [y], _ => rfl
+  · rfl
+
 theorem length_vecAdd (a b : List Rat) (h : a.length = b.length) : (vecAdd a b).length = a.length := by
-  simp [vecAdd, h]
+  simp [vecAdd_eq_zipWith a b h, h]
+
+/-- the broadcast branch: a right operand of length 1 is added to every position -/
+theorem vecAdd_singleton (a : List Rat) (x : Rat) : vecAdd a [x] = a.map (· + x) := rfl
 
 theorem getD_vecAdd (a b : List Rat) (k : Nat) (h : a.length = b.length) :
     (vecAdd a b).getD k 0 = a.getD k 0 + b.getD k 0 := by
-  unfold vecAdd
+  rw [vecAdd_eq_zipWith a b h]
   simp only [List.getD_eq_getElem?_getD, List.getElem?_zipWith]
   by_cases hk : k < a.length
   · rw [List.getElem?_eq_getElem hk, List.getElem?_eq_getElem (h ▸ hk)]
@@ -1053,5 +1066,72 @@ theorem finites_filter_not_mbr : ∀ l : List PepVal,
       have : (!isMbr (PepVal.fin q)) = true := rfl
       simp only [this, if_true, C17.finites]
       rw [ih]
+
+/-! ### evidence files with different SILAC / reporter columns -/
+
+/-- every slot of the flat intensity list, WITHOUT any hypothesis on the SILAC lists: what each precursor adds
+    (`contrib`: its `Intensity` to slot `e*(1+S)`, its `k`-th SILAC value to slot `e*(1+S)+1+k` — which is a slot
+    of a later experiment when the precursor has more SILAC values than `S`) -/
+theorem intensities_slot_general (exps : List String) (S : Nat) (c : Rat) (quants : List Row) (j : Nat) :
+    (intensities exps S c quants).getD j 0 =
+      (quants.map (fun q => contrib exps S c (exps.length * (1 + S)) q j)).sum := by
+  unfold intensities
+  rw [(foldl_intensStep exps S c j quants _).2, List.length_replicate]
+  have h0 : (List.replicate (exps.length * (1 + S)) (0 : Rat)).getD j 0 = 0 := by
+    rw [List.getD_eq_getElem?_getD, List.getElem?_replicate]
+    split <;> rfl
+  rw [h0, zero_add]
+
+/-- a precursor with at most `S` SILAC values never makes `_get_intensities` raise -/
+theorem silacRaises_false_of_le (exps : List String) (S : Nat) (c : Rat) (q : Row) (h : q.silac.length ≤ S) :
+    silacRaises exps S c q = false := by
+  unfold silacRaises
+  cases hx : expIdx exps q.experiment with
+  | none => simp
+  | some e =>
+    have he : e < exps.length := lastIdx_lt _ exps e hx
+    have h1 : (e + 1) * (1 + S) ≤ exps.length * (1 + S) := Nat.mul_le_mul_right _ he
+    rw [Nat.add_mul] at h1
+    have h2 : ¬ (exps.length * (1 + S) ≤ e * (1 + S) + q.silac.length) := by omega
+    simp [h2]
+
+/-- a precursor with exactly `3*T` reporter values never makes `_get_tmt_intensities` raise -/
+theorem tmtRaises_false_of_eq (exps : List String) (T : Nat) (c : Rat) (q : Row) (h : q.tmt.length = 3 * T) :
+    tmtRaises exps T c q = false := by
+  simp [tmtRaises, h]
+
+/-- no layout refusal when no identified precursor of a written group has more SILAC values than `S` and (with
+    reporter channels) all of them carry `3*T` reporter values -/
+theorem layoutError_eq_none (S : Nat) (o : Output)
+    (hs : ∀ g ∈ o.groups, ∀ q ∈ g.quants, q.silac.length ≤ S)
+    (ht : o.nTmt > 0 → ∀ g ∈ o.groups, ∀ q ∈ g.quants, q.tmt.length = 3 * o.nTmt.toNat) :
+    layoutError S o = none := by
+  unfold layoutError
+  have h1 : o.groups.any (fun g => g.quants.any (silacRaises o.experiments S o.cutoff)) = false := by
+    rw [List.any_eq_false]
+    intro g hg
+    rw [Bool.not_eq_true, List.any_eq_false]
+    intro q hq
+    rw [silacRaises_false_of_le _ _ _ _ (hs g hg q hq)]
+    simp
+  rw [h1]
+  simp only [Bool.false_eq_true, if_false]
+  by_cases hT : o.nTmt > 0
+  · have h2 : o.groups.any (fun g => g.quants.any (tmtRaises o.experiments o.nTmt.toNat o.cutoff)) = false := by
+      rw [List.any_eq_false]
+      intro g hg
+      rw [Bool.not_eq_true, List.any_eq_false]
+      intro q hq
+      rw [tmtRaises_false_of_eq _ _ _ _ (ht hT g hg q hq)]
+      simp
+    rw [h2]
+    simp
+  · simp [hT]
+
+theorem checked_ok (S : Nat) (o o' : Output) : checked S o = .ok o' ↔ layoutError S o = none ∧ o' = o := by
+  unfold checked
+  cases layoutError S o with
+  | some e => simp
+  | none => simp only [Except.ok.injEq, true_and]; exact eq_comm
 
 end PgFdr.C12
